@@ -73,7 +73,8 @@ def fam_small(quick: bool) -> list:
     for m in (2, 3, 4):
         for edges in M.labelled_connected_graphs(m):
             for w in range(2, m + 1):
-                alpha = alphabet(w, 'few' if quick else 'all')
+                alpha = alphabet(w, 'few' if quick else 'all',
+                                 ordered=not (quick and w == 4))
                 ln = 2 if quick else 3
                 if not quick and w == 4:
                     alpha = alphabet(w, 'few')
@@ -158,7 +159,8 @@ def fam_escape(quick: bool) -> list:
             for third in thirds:
                 if third is not None and m == 7:
                     continue
-                for pos in (0, 2) if third is not None else (2,):
+                for pos in ((0, 2) if not quick else (2,)) \
+                        if third is not None else (2,):
                     ops = [g1, g2]
                     if third is not None:
                         ops.insert(pos, third)
@@ -196,10 +198,28 @@ def fam_bigger() -> list:
     return cases
 
 
+def pam_barrier_scripts(w: int, k: int) -> list:
+    """g_1 B g_2 B ... g_k  b(p)  g(p): k two-qudit gates (each its own
+    2-qudit block, kept apart by full barriers B) that together touch every
+    qudit, then a barrier on the pair p, then a gate on p."""
+    pairs = [list(p) for p in itertools.combinations(range(w), 2)]
+    full = ['b', *range(w)]
+    out = []
+    for seq in itertools.product(pairs, repeat=k):
+        if len({q for p in seq for q in p}) < w:
+            continue
+        for p in pairs:
+            ops: list = []
+            for g in seq:
+                ops += [['g', *g], list(full)]
+            out.append(ops[:-1] + [['b', *p], ['g', *p]])
+    return out
+
+
 def fam_pam(quick: bool) -> list:
     """The level-4 SeqPAM sequence (build_seqpam_mapping_optimization_workflow
     exactly as _opt4_workflow calls it).  Every block permutation is
-    re-synthesised: ~1 s per run while all blocks are 2 qudits wide, minutes
+    re-synthesised: 1-4 s per run while all blocks are 2 qudits wide, minutes
     on one core as soon as a block has 3 qudits.  Quick: 2-qudit blocks only
     (blocks kept apart by barriers or disjointness); thorough adds a few
     3-qudit-block cases, each its own work item."""
@@ -209,26 +229,32 @@ def fam_pam(quick: bool) -> list:
     two = [
         [['g', 0, 2]],
         [['g', 2, 0], ['g', 0, 2]],
-        [['g', 0, 2], ['b', 0, 1, 2], ['g', 1, 0]],
         [['g', 0, 2], ['b', 0, 2], ['g', 1, 2]],
-        [['g', 1, 2], ['b', 0, 1, 2], ['g', 0, 2], ['b', 0, 1, 2],
-         ['g', 0, 1]],
     ]
     for ops in two:
-        for m, edges in m3:
+        for m, edges in m3[:2] if quick else m3:
             cases.append(case('pam', 3, ops, m, edges))
     m4 = [(4, M.line(4)), (4, M.star(4)), (5, M.line(5))]
     two4 = [
         [['g', 0, 3], ['g', 1, 2]],
         [['g', 0, 3], ['g', 2, 1], ['b', 0, 1, 2, 3], ['g', 0, 1],
          ['g', 3, 2]],
-        [['g', 0, 2], ['b', 0, 1], ['g', 1, 3], ['b', 0, 1, 2, 3],
-         ['g', 0, 3]],
     ]
     for ops in two4:
         for m, edges in m4[:2] if quick else m4:
             cases.append(case('pam', 4, ops, m, edges))
+    # barrier scripts, simplest first
+    for k in (2, 3):
+        for ops in pam_barrier_scripts(3, k):
+            for m, edges in m3[:1] if quick else m3[:3]:
+                cases.append(case('pam', 3, ops, m, edges))
     if not quick:
+        for ops in pam_barrier_scripts(4, 2):
+            for m, edges in m4:
+                cases.append(case('pam', 4, ops, m, edges))
+        for ops in pam_barrier_scripts(4, 3):
+            if ops[-1][1:] == [0, 1]:         # final pair fixed: budget
+                cases.append(case('pam', 4, ops, 4, M.star(4)))
         three = [
             [['g', 0, 2], ['g', 1, 0]],
             [['g', 2, 0, 1]],
@@ -236,11 +262,11 @@ def fam_pam(quick: bool) -> list:
         ]
         for ops in three:
             for m, edges in m3[:3]:
-                cases.append(case('pam', 3, ops, m, edges))
+                cases.append(case('pam3', 3, ops, m, edges))
         for ops in ([['g', 0, 1], ['g', 2, 3], ['g', 1, 2]],
                     [['g', 0, 1, 2], ['b', 0, 1, 2, 3], ['g', 1, 3]]):
             for m, edges in m4[:2]:
-                cases.append(case('pam', 4, ops, m, edges))
+                cases.append(case('pam3', 4, ops, m, edges))
     return cases
 
 
@@ -297,12 +323,17 @@ def _items(family: str, cases: list, seed: int, per: int) -> list:
 
 
 def run(ctx: Ctx) -> None:
+    ctx.max_reported = 20        # one line per distinct defect
     q = ctx.quick
     scale = float(os.environ.get('VERIF_BUDGET_SCALE', '1'))  # development
     budget = (80 if q else 1600) * scale
+    pam = fam_pam(q)
+    pam3 = [dict(c, flow='pam') for c in pam if c['flow'] == 'pam3']
+    pam = [c for c in pam if c['flow'] == 'pam']
     fams = [
+        ('pam-3-qudit-blocks', pam3, 1),
         ('escape', fam_escape(q), 60),
-        ('pam', fam_pam(q), 1),
+        ('pam', pam, 3),
         ('small-graphs', fam_small(q), 150),
         ('params', fam_params(q), 150),
         ('pre-blocked', fam_blocked(q), 150),
@@ -318,11 +349,7 @@ def run(ctx: Ctx) -> None:
     for name, cases, per in fams:
         planned[name] = len(cases)
         its = _items(name, cases, ctx.seed, per)
-        if name == 'pam':
-            # slow items first so they overlap with everything else
-            items = its + items
-        else:
-            items += its
+        items += its
     fails: dict[str, list] = {}
     fam: dict[str, dict] = {}
     probe: dict[str, int] = {}
